@@ -9,7 +9,6 @@ import (
 	"os"
 	"path"
 	"sync"
-	"time"
 
 	"github.com/pojntfx/stfs/internal/ioext"
 	"github.com/pojntfx/stfs/internal/pathext"
@@ -120,6 +119,29 @@ func (f *File) syncWithoutLocking() error {
 	}
 
 	if f.writeBuf != nil {
+		// Look at the entry as it is now: it might have been changed (chmod, chown, chtimes), removed or renamed since this file was opened
+		current, err := inventory.Stat(
+			f.metadata,
+
+			f.path,
+			false,
+
+			f.onHeader,
+		)
+		if err != nil {
+			if err == sql.ErrNoRows {
+				// Like an unlinked file: there is nothing left to archive the content to. Appending an update
+				// for a name that is gone would resurrect a removed entry and detach the index from the tape
+				return nil
+			}
+
+			return err
+		}
+
+		if current.Typeflag == tar.TypeDir {
+			return nil
+		}
+
 		// Archiving reads the whole write buffer; continue at the current position afterwards
 		pos, err := f.writeBuf.Seek(0, io.SeekCurrent)
 		if err != nil {
@@ -140,27 +162,18 @@ func (f *File) syncWithoutLocking() error {
 					return config.FileConfig{}, err
 				}
 
-				// Some OSes like i.e. Windows don't support numeric GIDs and UIDs, so use 0 instead
-				gid := 0
-				uid := 0
-				modTime := f.info.ModTime()
-				accessTime := f.info.ModTime()
-				changeTime := f.info.ModTime()
-				sys, ok := f.info.Sys().(*Stat)
-				if ok {
-					gid = int(sys.Gid)
-					uid = int(sys.Uid)
-					accessTime = time.Unix(0, sys.Atim.Nano())
-					changeTime = time.Unix(0, sys.Ctim.Nano())
-				}
+				// Keep the current attributes, only the content is replaced
+				gid := current.Gid
+				uid := current.Uid
+				modTime := current.ModTime
 
 				f.info = NewFileInfo(
 					f.info.Name(),
 					size,
-					f.info.Mode(),
+					current.FileInfo().Mode(),
 					modTime,
-					accessTime,
-					changeTime,
+					current.AccessTime,
+					current.ChangeTime,
 					gid,
 					uid,
 					f.info.IsDir(),
